@@ -149,7 +149,10 @@ impl<V: Clone + 'static> MapC for HashMap<u8, V> {
         "HashMap".into()
     }
     fn from_entries(e: Vec<(u8, V)>) -> Option<Self> {
-        Some(e.into_iter().collect())
+        let n = e.len();
+        let m: Self = e.into_iter().collect();
+        // a term listing a key twice (multi-edge union-find delta) cannot be held by a real map
+        (m.len() == n).then_some(m)
     }
     fn entries(&self) -> Vec<(u8, &V)> {
         let mut v: Vec<(u8, &V)> = self.iter().map(|(k, v)| (*k, v)).collect();
@@ -163,7 +166,10 @@ impl<V: Clone + 'static> MapC for BTreeMap<u8, V> {
         "BTreeMap".into()
     }
     fn from_entries(e: Vec<(u8, V)>) -> Option<Self> {
-        Some(e.into_iter().collect())
+        let n = e.len();
+        let m: Self = e.into_iter().collect();
+        // a term listing a key twice (multi-edge union-find delta) cannot be held by a real map
+        (m.len() == n).then_some(m)
     }
     fn entries(&self) -> Vec<(u8, &V)> {
         self.iter().map(|(k, v)| (*k, v)).collect()
